@@ -54,6 +54,116 @@ def oracle_factory(seq_meta):
     return oracle
 
 
+def exec_then_denied(chk, stack, runner):
+    """a denial is decided and recorded for the program that makes the request: a process the rules allowed exec()s a program they do
+    not allow and asks again (same pid) - that request is refused and the record names the new program"""
+    import os
+    import shutil
+    import subprocess
+    import sys
+    exe_a = os.path.join(stack.sd, "c11bin", "granted-program")
+    exe_b = os.path.join(stack.sd, "c11bin", "other-program")
+    os.makedirs(os.path.dirname(exe_a), exist_ok=True)
+    shutil.copyfile(sys.executable, exe_a); os.chmod(exe_a, 0o755)
+    shutil.copyfile(shutil.which("sleep"), exe_b); os.chmod(exe_b, 0o755)
+    env = dict(os.environ, PYTHONHOME=sys.base_prefix)
+    p = subprocess.Popen([exe_a, "-c", "import sys,os; sys.stdin.readline(); os.execv(sys.argv[1], [sys.argv[1], '600'])", exe_b],
+                         stdin=subprocess.PIPE, stdout=subprocess.DEVNULL, stderr=subprocess.DEVNULL, env=env)
+    stack.pids.append(p)
+    time.sleep(0.3)
+    if p.poll() is not None:
+        chk.notes.append("exec-then-denied stage skipped: the helper interpreter did not start")
+        return
+    doc = {"id": "rx", "mode": "enforce", "defaultAccess": "deny", "rules": {
+        "privileges": [{"name": "p1", "path": "/metadata", "queryParameters": None}],
+        "roles": [{"name": "r1", "privileges": ["p1"]}],
+        "identities": [{"name": "i1", "exePath": exe_a}],
+        "roleAssignments": [{"role": "r1", "identities": ["i1"]}]}}
+    runner.set_env({"ws": None, "imds": doc, "hostga": None, "key": None})
+    stack.ctl("clear")
+    seen = []
+    for phase in ("before", "after"):
+        port = stack.fresh_port()
+        stack.ctl("audit %d 1000 %d 0 %s %d" % (port, p.pid, e2e.IMDS[0], e2e.IMDS[1]))
+        stack.hosts.take()
+        try:
+            c = e2e.ClientConn(port, 6.0)
+        except OSError:
+            return
+        resp = c.request(e2e.build_request("GET", "/metadata/instance?exec=" + phase, [(b"Host", b"h")]), b"GET", 6.0)
+        c.close(rst=True)
+        time.sleep(0.05)
+        relayed = [r for r in stack.hosts.take() if not r.get("partial")]
+        seen.append((resp and resp["status"], len(relayed)))
+        if phase == "before":
+            p.stdin.write(b"go\n"); p.stdin.flush()
+            time.sleep(0.4)
+    failed = parse_failed(stack.ctl("failed"))
+    chk.case(nontrivial_key=("exec-then-denied", tuple(seen)))
+    chk.count("exec_then_denied")
+    d = {"pid": p.pid, "granted_program": exe_a, "program_after_exec": exe_b, "answers": seen,
+         "failed_summary": sorted([list(k) + [v] for k, v in failed.items()])}
+    if seen[0] != (200, 1):
+        chk.disagreement("exec-then-denied", d, "request of the granted program relayed (200)", seen[0])
+        return
+    if seen[1] != (403, 0):
+        chk.violation("enforce-mode denial was not a 403 without relay", d, expected="403, no upstream bytes for the program the rules do not grant",
+                      observed=seen[1])
+    exes = sorted(k[3] for k in failed)
+    if not any(x.endswith("other-program") for x in exes) or any(x.endswith("granted-program") for x in exes):
+        chk.violation("failed-authorization summary does not count each denial exactly once under its caller", d,
+                      expected="one record naming other-program", observed=exes)
+
+
+def kept_connection_denials(chk, stack, runner, callers):
+    """on ONE kept-alive connection: the same path with query strings the rules tell apart, denied ones repeated; and the rule set
+    replaced between identical requests. Each denial is a 403 (enforce) / relayed (audit) and is counted once."""
+    for sess in pipegen.query_rule_sessions(callers):
+        stack.ctl("clear")
+        conn = None
+        want_failed = 0
+        trace = []
+        for case in sess:
+            runner.set_env(case["env"])
+            doc = case["env"]["imds"]
+            granted = doc["rules"]["privileges"][0]["queryParameters"]["resource"]
+            q = case["req"]["target"].split("resource=")[1].split("&")[0]
+            denied = q.lower() != granted
+            mode = doc["mode"]
+            stack.hosts.take()
+            if conn is None:
+                c = case["caller"]
+                conn = stack.connect(audit=(c["uid"], c["pid"], 0, case["dest"][0], case["dest"][1]))
+            try:
+                resp = conn.request(e2e.build_request("GET", case["req"]["target"], [(b"Host", b"h")]), b"GET", 6.0)
+            except OSError:
+                resp = None
+            if resp is None:
+                break
+            relayed = len([r for r in stack.hosts.take() if not r.get("partial")])
+            trace.append((case["req"]["target"], mode, granted, resp["status"], relayed))
+            chk.case(nontrivial_key=("kept-denials", mode, denied, q))
+            chk.count("kept_connection_%s_%s" % (mode, "denied" if denied else "allowed"))
+            d = {"requests_on_this_connection": [list(t) for t in trace]}
+            if denied:
+                want_failed += 1
+                if mode == "enforce" and (resp["status"] != 403 or relayed):
+                    chk.violation("enforce-mode denial was not a 403 without relay", d, expected="403, no upstream bytes", observed=(resp["status"], relayed))
+                if mode == "audit" and (resp["status"] != 200 or relayed != 1):
+                    chk.violation("audit-mode denial was not relayed like an allowed request", d, expected="relayed, 200", observed=(resp["status"], relayed))
+            elif resp["status"] != 200 or relayed != 1:
+                chk.disagreement("kept-connection", d, "allowed request relayed (200)", (resp["status"], relayed))
+            if (e2e.hget(resp["headers"], b"connection") or b"").lower() == b"close":
+                break
+        if conn is not None:
+            conn.close()
+        time.sleep(0.05)
+        got = sum(parse_failed(stack.ctl("failed")).values())
+        if got != want_failed:
+            chk.violation("failed-authorization summary does not count each denial exactly once under its caller",
+                          {"requests_on_one_connection": [list(t) for t in trace]}, expected=want_failed, observed=got)
+
+
 def run(chk):
     if not e2e.in_netns():
         e2e.reexec_in_netns()
@@ -144,6 +254,8 @@ def run(chk):
                               {"sequence": s, "mode": seq_meta[s][0][0]["c11_mode"] if s in seq_meta else None,
                                "requests": len(seq_meta.get(s, []))},
                               expected=sorted((list(k), v) for k, v in want.items()), observed=sorted((list(k), v) for k, v in got.items()))
+        exec_then_denied(chk, stack, runner)
+        kept_connection_denials(chk, stack, runner, callers)
         chk.sample({"sequence0_failed_summary": parse_failed(seq_failed[0]) and [list(k) + [v] for k, v in parse_failed(seq_failed[0]).items()],
                     "mode": "enforce"})
         chk.sample(runner.describe(runner.observations[0]))
